@@ -11,6 +11,8 @@ pub struct Finding {
     pub what: String,
     pub signature: String,
     pub witness: Value,
+    /// the whole entry (for finding-specific fields such as a rate profile)
+    pub raw: Value,
 }
 
 #[derive(Default)]
@@ -49,6 +51,7 @@ impl Findings {
                         what: f["what"].as_str().unwrap_or("").to_string(),
                         signature: f["signature"].as_str().unwrap_or("").to_string(),
                         witness,
+                        raw: f.clone(),
                     });
                 }
             }
